@@ -78,7 +78,8 @@ fn check_common_post(port: &RPort<'_>, pre: &Pre, fcfg: &RecFilterCfg, measured:
 // @props C09 C03 C17
 // @tier quick
 // @variant lists2
-// @timeout 900
+// @timeout 1200
+// @mem 8
 // @functions Port::handle_sync, Port::handle_time_measurement, Port::extract_measurement, Time - Duration, Time - Time, Duration - Duration, From<WireTimestamp> for Time, From<TimeInterval> for Duration
 // @bounds one step from an arbitrary Slave state: stored sync/delay slots arbitrary (any id, any stored times < 2^79 ns with 2^-32 ns fraction, Inv: no slot complete), arbitrary last raw sync offset / mean delay (96-bit), arbitrary peer-delay record; header fully symbolic (sequence id, correction i64, source identity, all flags incl. twoStep), origin timestamp seconds < 2^48 and any u32 nanoseconds, asymmetry any I48F16, E2E or P2P
 // @assume receive time in [2^47 ns, 2^63 ns) (so that recv - correction cannot underflow; the underflow corner is C03's known-finding twin)
@@ -159,7 +160,8 @@ fn c09_sync() {
 // @props C09 C03 C17
 // @tier quick
 // @variant lists2
-// @timeout 900
+// @timeout 1200
+// @mem 8
 // @functions Port::handle_follow_up, Port::handle_time_measurement, Port::extract_measurement, Time + Duration
 // @bounds as c09_sync; Follow_Up header and precise origin timestamp fully symbolic
 // @assume precise origin timestamp seconds >= 2^18 (so that t1 + negative correction cannot underflow; the corner is C03's known-finding twin)
@@ -228,7 +230,8 @@ fn c09_follow_up() {
 // @props C09 C03 C17
 // @tier quick
 // @variant lists2
-// @timeout 900
+// @timeout 1200
+// @mem 8
 // @functions Port::handle_send_timestamp, Port::handle_delay_timestamp, Port::extract_measurement, Duration / 2
 // @bounds as c09_sync; transmit timestamp any Time in [0, 2^63 ns) with 2^-32 ns fraction, context id any u16
 #[kani::proof]
@@ -275,7 +278,8 @@ fn c09_delay_timestamp() {
 // @props C09 C03 C17
 // @tier quick
 // @variant lists2
-// @timeout 900
+// @timeout 1200
+// @mem 8
 // @functions Port::handle_delay_resp, Port::handle_time_measurement, Port::extract_measurement
 // @bounds as c09_sync; Delay_Resp header, receive timestamp and requesting port identity fully symbolic
 // @assume receive timestamp seconds >= 2^18 (so that t4 - positive correction cannot underflow; the corner is C03's known-finding twin)
